@@ -160,7 +160,8 @@ class Encoded:
         if pkg.backend != "atlas":
             members = [("TTree*", "myTree")] + members
         self.book_ast = cxx.parse_code_lines(main["book_code"])
-        self.query_ast = cxx.parse_code_lines(self._per_event_lines(main))
+        self.macros = cxx.collect_macros(pkg.files.get("query.cxx" if pkg.backend == "atlas" else "Analyzer.cc", ""))
+        self.query_ast = cxx.parse_code_lines(self._per_event_lines(main), self.macros)
         self.includes = list(main["body_include_files"])
         self.exec = Exec(self.event, dm, members, self.ctx, tag=tag, member_pre=member_pre, patches=patches)
         # booking (constructor / initialize): executed once, concretely guarded
